@@ -16,7 +16,7 @@ every `NamespaceOrDefault()/PartitionOrDefault()` is the literal "default")
         `NormalizeServiceSplitWeight` / `scaleWeight`
   * agent/consul/state/config_entry.go        `ensureConfigEntryTxn` / `deleteConfigEntryTxn` →
         `validateProposedConfigEntryInServiceGraph` (chains to re-check via the link index, speculative
-        compile with the override) — see `CV.Chain.Store` at the end of this file
+        compile with the override), `readDiscoveryChainConfigEntriesTxn` (`gather`) — end of this file
 
 NOT modelled (generator restrictions or opaque pass-through, see DESIGN §5 C15 and the final report):
 sameness groups (rejected by CE validation), `PrioritizeByLocality`, failover policies, envoy extensions,
@@ -822,10 +822,10 @@ def flattenRound (nodes : List (String × Node)) : List String → Option (List 
     | some _ => flattenRound nodes ks
 
 /-- the outer `for {}`; `none` when a lookup fails or the bound on the number of passes is hit.
-    The bound is not part of the Go code: on an acyclic graph every pass lowers the longest
-    splitter-to-splitter chain, so `#nodes + 1` passes always suffice (the Go loop would spin forever on
-    a cycle, which `detectCircularReferences` has excluded). Hitting the bound surfaces as
-    `Err.internal`, which never matches an implementation answer in the correspondence run. -/
+    The bound is not part of the Go code (whose loop would spin forever on a splitter cycle, which
+    `detectCircularReferences` has excluded): on the graphs `compile` hands to it every pass lowers the
+    largest rank of a splitter below a splitter, so `#nodes + 1` passes always suffice — proved as
+    `flatten_bound_sufficient` (CV/Proofs/ChainFlat.lean), whence `compile_never_internal`. -/
 def flattenLoop : Nat → List String → List (String × Node) → Option (List (String × Node))
   | 0, _, _ => none
   | fuel + 1, order, nodes =>
@@ -923,9 +923,9 @@ write and the transaction is aborted. Which chain's error is reported depends on
 model only says *rejected*.
 
 The speculative compile reads its inputs through `readDiscoveryChainConfigEntriesTxn`, which collects
-the entries reachable through `ListRelatedServices`; the model compiles against the whole proposed
-store instead (the two agree unless a failover target names a *peer* — those are not followed by the
-collector but are looked up by the compiler; the generators keep peers out of the store sequences). -/
+the entries reachable through `ListRelatedServices` (`gather` below). This differs from compiling
+against the whole store exactly when a failover target names a *peer*: those are not followed by the
+collector but the compiler still looks up the local resolver / service-defaults of that name. -/
 
 inductive Kind | router | splitter | resolver | service | proxy
 deriving DecidableEq, Repr
@@ -1004,8 +1004,49 @@ def affected (S : Entries) (k : Kind) (n : String) : List String :=
 /-- the request `testCompileDiscoveryChain` uses -/
 def storeCtx (svc : String) : Ctx := { svc := svc }
 
+/-- the work-queue closure of `readDiscoveryChainConfigEntriesTxn`: names reachable from `todo` through
+    the `ListRelatedServices` of the entries that exist (`g` : name ↦ related names); names without an
+    entry are visited but not expanded. The Go queue is a map (any order); the result *set* is the same. -/
+def closeOver (g : List (String × List String)) (todo visited : List String) : List String :=
+  match todo with
+  | [] => visited
+  | k :: rest =>
+    if hv : k ∈ visited then closeOver g rest visited
+    else
+      match hn : alook k g with
+      | none => closeOver g rest (k :: visited)
+      | some next => closeOver g (next ++ rest) (k :: visited)
+termination_by (unseen (akeys g) visited, todo.length)
+decreasing_by
+  · exact Prod.Lex.right _ (by simp)
+  · have := unseen_append_le (akeys g) [k] visited
+    rcases Nat.lt_or_eq_of_le this with h | h
+    · exact Prod.Lex.left _ _ h
+    · simp only [List.singleton_append] at h
+      rw [h]; exact Prod.Lex.right _ (by simp)
+  · exact Prod.Lex.left _ _ (unseen_lt (alook_key_mem hn) hv)
+
+/-- `readDiscoveryChainConfigEntriesTxn`: the entries a chain's compilation is given. One router (the
+    chain's own), splitters reachable from it (or from the name itself), resolvers reachable from every
+    visited splitter name, service-defaults of every visited name, proxy-defaults. Peer failover targets
+    are not followed (`ListRelatedServices` skips them). -/
+def gather (S : Entries) (svc : String) : Entries :=
+  let router := alook svc S.routers
+  let start := match router with
+    | some routes => routerRelated svc routes
+    | none => [svc]
+  let sv := closeOver (S.splitters.map fun kv => (kv.1, splitterRelated kv.1 kv.2)) start []
+  let rv := closeOver (S.resolvers.map fun kv => (kv.1, resolverRelated kv.1 kv.2)) sv []
+  let dv := svc :: sv ++ rv
+  { routers := S.routers.filter fun kv => kv.1 = svc
+    splitters := S.splitters.filter fun kv => sv.contains kv.1
+    resolvers := S.resolvers.filter fun kv => rv.contains kv.1
+    services := S.services.filter fun kv => dv.contains kv.1
+    proxy := S.proxy }
+
+/-- `testCompileDiscoveryChain` against a (proposed) store -/
 def compiles (S : Entries) (svc : String) : Bool :=
-  match compile S (storeCtx svc) with
+  match compile (gather S svc) (storeCtx svc) with
   | .ok _ => true
   | .error _ => false
 
